@@ -6,7 +6,7 @@ executor submit, explicit `point()`).  The *chooser* callback decides who runs n
 can enumerate schedules.  Blocking is modelled with predicates: a thread parked with pred() False is
 disabled; "no enabled thread while some thread is unfinished" is a deadlock (or quiescence, if the
 harness says so)."""
-import _thread, sys, types, threading as _rt
+import _thread, os, sys, types, threading as _rt
 import concurrent.futures as _cf
 from concurrent.futures import Future as _Future
 
@@ -97,7 +97,7 @@ class Sched:
         t.real = _POOL.run(t._run)
         t.ident = t.real.ident
 
-    def run(self, main, name="main", timeout=120):
+    def run(self, main, name="main", timeout=int(os.environ.get("VERIF_HANG_TIMEOUT", "600"))):
         t = self.spawn(main, name=name)
         self._start_real(t)
         self.cur = t
